@@ -95,7 +95,7 @@ Fixpoint pkg_wellformed (pre : list tnode) (seen : list hdr) (hs : list hdr) : b
       forallb (fun q => pre_is_dir pre q || is_dir_hdr seen q) (prefixes (parent (h_path h))) &&
       negb (existsb (fun x => path_eqb (h_path x) (h_path h)) seen) &&
       match h_kind h with
-      | KLink => existsb (fun x => path_eqb (h_path x) (h_link h) && kind_eqb (h_kind x) KReg) seen &&
+      | KLink => existsb (fun x => path_eqb (h_path x) (h_link h) && (kind_eqb (h_kind x) KReg || kind_eqb (h_kind x) KLink)) seen &&
                  match tree_get pre (h_path h) with None => true | Some _ => false end
       | KDir => true
       | _ => match tree_get pre (h_path h) with None => true | Some _ => false end
